@@ -33,7 +33,7 @@ REAL = common.REAL_ALL
 STUBS = common.STUBS_ALL
 INTERLEAVING_MEASURE = 'distinct (monitor kind, mode, number of updates or batches) tuples'
 PROBES = ['law_not_eventually', 'law_not_once', 'law_implies', 'law_eventually_eventually', 'law_once_once', 'law_since_expansion',
-          'law_until_expansion', 'unbounded_version', 'online', 'pastified', 'dense_time', 'stateful_operand', 'bounds_with_explicit_units']
+          'law_until_expansion', 'unbounded_version', 'online', 'pastified', 'dense_time', 'stateful_operand', 'bounds_with_explicit_units', 'same_numerals_different_unit']
 
 LAWS = ['not_eventually', 'not_once', 'implies', 'eventually_eventually', 'once_once', 'since_expansion', 'until_expansion']
 
@@ -95,6 +95,16 @@ def gen(rng, tier):
         lo = rng.randint(0, mb)
         return [lo, rng.randint(lo, mb)]
     b1, b2 = bnd(), bnd()
+    same_numerals = None
+    if law in ('eventually_eventually', 'once_once') and not dense and not (online and law == 'eventually_eventually') and rng.random() < 0.2:
+        # the two nested intervals are written with the same numerals in different units: [a:b s] and [a:b ms], period 1 ms
+        fine, coarse = rng.choice([('ms', 's'), ('us', 'ms'), ('ns', 'us')])
+        lo = rng.randint(0, 1)
+        b2 = [lo, lo + rng.randint(0, 2)]
+        b1 = [1000 * b2[0], 1000 * b2[1]]
+        if rng.random() < 0.5:
+            b1, b2 = b2, b1
+        same_numerals = {'fine': fine, 'coarse': coarse}
     lhs, rhs = sides(law, p, q, b1, b2, unbounded)
     pastify = online and any(x[0] in sg.FUTURE_OPS for x in sg.walk(lhs))
     sc = {'kind': kind, 'law': law, 'unbounded': unbounded, 'vars': vars_, 'p': p, 'q': q, 'b1': b1, 'b2': b2, 'pastify': pastify}
@@ -106,7 +116,10 @@ def gen(rng, tier):
     else:
         sc['n'] = rng.randint(1, 10) + (int(sg.horizon(lhs)) if pastify else 0)
         sc['data'] = world.gen_trace(rng, vars_, sc['n'])
-        if rng.random() < 0.25:
+        if same_numerals:
+            sc['same_numerals'] = same_numerals
+            sc['notation'] = {'period': 1, 'pu': same_numerals['fine'], 'du': same_numerals['fine'], 'tol': 0.1, 'style': 'plain'}
+        elif rng.random() < 0.25:
             # the bounds of both sides are written with explicit units, each bound in a style of its own
             nt = units.gen_notation(rng, p_plain=0.3)
             nt['style'] = 'random'
@@ -126,6 +139,17 @@ def texts_of(sc, lhs, rhs):
     if dense:
         return common.dense_text(lhs), common.dense_text(rhs)
     nt = sc.get('notation')
+    sn = sc.get('same_numerals')
+    if sn and nt and sc['law'] in ('eventually_eventually', 'once_once'):
+        b1, b2 = sc['b1'], sc['b2']
+        big, small = (b1, b2) if b1[1] >= b2[1] else (b2, b1)
+        if big == [1000 * small[0], 1000 * small[1]] and big != small:
+            kw = 'eventually' if sc['law'] == 'eventually_eventually' else 'once'
+            ptxt = sg.to_text(sc['p'])
+            w = {True: '[%d:%d%s]' % (small[0], small[1], sn['coarse']), False: '[%d:%d%s]' % (small[0], small[1], sn['fine'])}
+            lt = 'out = %s%s (%s%s (%s));' % (kw, w[b1 is big or b1 == big], kw, w[not (b1 is big or b1 == big)], ptxt)
+            rt = 'out = %s[%d:%d%s] (%s);' % (kw, b1[0] + b2[0], b1[1] + b2[1], sn['fine'], ptxt)
+            return lt, rt
     if nt:
         import random
         srng = random.Random(sc.get('style_seed', 0))
@@ -188,6 +212,8 @@ def run(sc):
     except ValueError:
         sc = dict(sc, notation=None)           # (a shrunk bound is not printable in this notation any more)
         ta, tb = texts_of(sc, lhs, rhs)
+    if sc.get('same_numerals') and 's]' in ta:
+        r.probes['same_numerals_different_unit'] += 1
     if sc.get('notation') and not dense:
         r.probes['bounds_with_explicit_units'] += 1
         r.faults['unit_notation_non_default'] += 1
